@@ -839,6 +839,51 @@ func c05Buckets(r *Report, rule string) {
 		o.check(miss == "", "map type, label scan, mode decode, validator(.., true) all on the decoded content", "missing on a non-empty success path: "+miss)
 	}
 	r.floor(rule, n, 2, "success paths of the protected-bucket decoder")
+	// the content of the protected bstr is an item of its own: every mode
+	// call on it (in the decoder or in a helper that receives it) uses a mode
+	// that does not forbid tags (tags are only excluded from the envelope)
+	if rule == "R07.5" { // an acceptance rule: C07 only
+		tagsOK := map[string]bool{}
+		for _, mc := range P.modeConfigs() {
+			if !mc.enc && mc.global != "" && mc.opts["TagsMd"] == 0 && len(mc.unknown) == 0 {
+				tagsOK[mc.global] = true
+			}
+		}
+		nm := 0
+		var visit func(f *ssa.Function, isContent func(t *Term) bool, depth int)
+		visit = func(f *ssa.Function, isContent func(t *Term) bool, depth int) {
+			if depth > 3 {
+				return
+			}
+			for _, ci := range callsIn(f, nil) {
+				c := ci.Common()
+				if c.IsInvoke() && isCBORMode(c.Value.Type()) && (c.Method.Name() == "Unmarshal" || c.Method.Name() == "Wellformed") && len(c.Args) >= 1 && isContent(P.terms.of(c.Args[0])) {
+					nm++
+					g, isM := P.isModeLoad(P.terms.of(c.Value), false)
+					r.ob(rule, fmt.Sprintf("%s:content-mode:%s#%d", shortFn(ph), shortFn(f), nm), f, ci, "the protected bucket's content is decoded with a mode that admits tagged values").check(isM && tagsOK[g], "mode "+g, "the content of the protected header is handed to "+P.terms.of(c.Value).String()+", which forbids tags inside the protected bucket")
+					continue
+				}
+				if h := staticCallee(ci); h != nil && P.inPkg(h) && h != bnDec {
+					for k, a := range c.Args {
+						if isContent(P.terms.of(a)) {
+							kk := k
+							visit(h, func(t *Term) bool { return t.Op == "param" && t.S == itoa(int64(kk)) }, depth+1)
+						}
+					}
+				}
+			}
+		}
+		vp := mustPat(V)
+		visit(ph, func(t *Term) bool {
+			t = P.resolveValue(t)
+			if t.Op == "convert" && len(t.Args) == 1 {
+				t = t.Args[0]
+			}
+			_, ok := unify(vp, t, bindings{})
+			return ok
+		}, 0)
+		r.floor(rule, nm, 2, "mode calls on the protected bucket's content")
+	}
 	// what is stored is what was validated (or the fresh empty map)
 	for _, st := range P.receiverStores(ph) {
 		vt := P.resolveValue(P.terms.of(st.Val))
@@ -1052,6 +1097,17 @@ func c05Buckets(r *Report, rule string) {
 				ok1 := len(fs.matchAll([]factPat{fp(okp("call<invoke:cbor.DecMode.Unmarshal>(%M, $0, iface<*Countersignature>(%R))"))}, nil)) > 0 && x.results[0].Op == "iface" && x.results[0].S == "*Countersignature"
 				ok2 := len(fs.matchAll([]factPat{fp(okp("call<invoke:cbor.DecMode.Unmarshal>(%M, $0, iface<*[]*Countersignature>(%R))"))}, nil)) > 0 && x.results[0].Op == "iface" && x.results[0].S == "[]*Countersignature"
 				o.check(ok1 || ok2, "ok(decode into "+x.results[0].S+")", "success exit returns "+x.results[0].String()+" without a matching successful decode")
+			}
+			// ... and refuses a value only after both forms have been tried
+			for _, x := range P.factsOf(csDec).exits {
+				if x.kind != exitFailure || rule == "R05.5" { // acceptance / both-directions rule: C07, C13
+					continue
+				}
+				o := r.ob(rule, shortFn(csDec)+":refusal:"+exitID(P, csDec, x), csDec, x.ret, "a value is refused only after decoding it as one Countersignature and as a list of them have both failed")
+				fs := x.facts
+				f1 := len(fs.matchAll([]factPat{fp("!" + okp("call<invoke:cbor.DecMode.Unmarshal>(%M, $0, iface<*Countersignature>(%R))"))}, nil)) > 0
+				f2 := len(fs.matchAll([]factPat{fp("!" + okp("call<invoke:cbor.DecMode.Unmarshal>(%M, $0, iface<*[]*Countersignature>(%R))"))}, nil)) > 0
+				o.check(f1 && f2, "both attempts failed", fmt.Sprintf("refusal reachable with single-object attempt failed: %v, list attempt failed: %v", f1, f2))
 			}
 		}
 	}
